@@ -122,18 +122,48 @@ def run(ck, m):
             if isinstance(s, ast.FunctionDef) and s.name == "_render_image" and not any(norm(d) == "abstractmethod" for d in s.decorator_list):
                 rends.append((rel, cls.name, s))
     ck.expect(len(rends) >= 3, f"expected >= 3 concrete _render_image, found {len(rends)}")
+    from tiv.absdom import EvUnk as _EvUnk, ev as _aev
+    import itertools as _it
     for rel, cn, fn in rends:
         g = CFG(fn)
-        fv = frame_var(fn)
-        ck.ob("R2", fn, fv is not None, f"{cn}._render_image: the iterator's frame image must be recognised with `<v> = img if frame else None`", stmt=f"{cn}: frame_img = img if frame else None")
-        fv = fv or "frame_img"
-        p = g.search([g.entry], lambda n: n is g.exit_return, avoid=make_is_release(fv), from_succ=False, edge_ok=lambda s, lab, d: not lab.startswith(("e:", "p:")))
+        # the conditional release: `if <test>: self._close_image(img)` where <test> holds exactly when the image at hand is not the
+        # iterator's frame image (frame is set and the image is still the one passed in). Decided on the 4 valuations of
+        # (frame, current image is the one passed in), whatever local the entry image is kept in.
+        rel_ifs = [s_ for s_ in body_walk(fn) if isinstance(s_, ast.If) and not s_.orelse and [norm(x) for x in s_.body] == ["self._close_image(img)"]]
+        ck.ob("R2", fn, len(rel_ifs) >= 1, f"{cn}._render_image: the conditional release `if <not the iterator's frame image>: self._close_image(img)` not found", stmt=f"{cn}: frame_img = img if frame else None")
+        for s_ in rel_ifs:
+            cur = ast.Name(id="img", ctx=ast.Load())
+            cur_t = norm(trace(fn, cur, use=s_.test))
+            tt_src = norm(trace(fn, s_.test, keep=("frame",)))
+            verdict = None
+            fv0 = frame_var(fn)
+            if fv0 is not None and match_expr(f"{fv0} is not img", s_.test) is not None:
+                verdict = True          # the baseline idiom: `<v> = img if frame else None` ... `if <v> is not img:` (also where <v> is conditionally None)
+            try:
+                if verdict:
+                    raise SyntaxError
+                e_ = ast.parse(tt_src.replace(cur_t, "IMGCUR") if cur_t != "img" else tt_src.replace("img", "IMGCUR").replace("IMGCUR__0", "img__0"), mode="eval").body
+                verdict = True
+                for fr_, same_ in _it.product((True, False), (True, False)):
+                    got = bool(_aev(e_, {"frame": fr_, "img__0": "SRC", "img": "SRC", "IMGCUR": "SRC" if same_ else "NEW"}))
+                    if got != (not (fr_ and same_)):
+                        verdict = False
+            except (_EvUnk, SyntaxError):
+                pass
+            ck.expect(verdict is not None, f"{cn}._render_image: the release condition `{short(s_.test, 60)}` is not evaluable on (frame, same image)")
+            if verdict is not None:
+                ck.ob("R2", s_, verdict, f"{cn}: the image must be released exactly when it is not the iterator's frame image (`frame` set and still the image passed in); found `{short(s_.test, 60)}`",
+                      stmt=f"{cn}: if frame_img is not img: self._close_image(img)")
+
+        def is_release(n, rel_ifs=rel_ifs):
+            if n.ast is None:
+                return False
+            if n.kind == "test" and any(n.ast is s_.test for s_ in rel_ifs):
+                return True
+            return n.kind == "stmt" and any(isinstance(c, ast.Call) and norm(c.func) == "self._close_image" and c.args and norm(c.args[0]) == "img" for c in ast.walk(n.ast))
+        p = g.search([g.entry], lambda n: n is g.exit_return, avoid=is_release, from_succ=False, edge_ok=lambda s, lab, d: not lab.startswith(("e:", "p:")))
         ck.ob("R2", fn, p is None, f"{cn}._render_image can return normally without releasing the image it was given ({fmt_path(p) if p else ''}): the file opened by _renderer() stays open",
               stmt=f"{cn}._render_image: image released on every normal path")
-        # the conditional release really releases: `if frame_img is not img: self._close_image(img)`
-        for s in body_walk(fn):
-            if isinstance(s, ast.If) and match_expr(f"{fv} is not img", s.test) is not None:
-                ck.ob("R2", s, [norm(x) for x in s.body] == ["self._close_image(img)"] and not s.orelse, f"{cn}: `if {fv} is not img:` must release the image", stmt=f"{cn}: if frame_img is not img: self._close_image(img)")
         # the explicit error path releases before raising
         for r in body_walk(fn):
             if isinstance(r, ast.Raise) and r.exc is not None and "RenderError" in norm(r.exc):
@@ -189,7 +219,8 @@ def run(ck, m):
     ck.ob("R3", grd, len(fi) == 1, "_get_render_data must recognise the iterator's frame image", stmt="_get_render_data: frame_img = img if frame else None")
 
     # ---- R4 ----------------------------------------------------------------------------
-    an = m.get(CM, "ImageIterator._animate")
+    from rules.common import animate_facts
+    an = animate_facts(ck, m)
     first = next(s for s in an.body if not (isinstance(s, ast.Expr) and isinstance(s.value, ast.Constant)))
     ck.ob("R4", first, norm(first) == "self._img = img", "_animate must record the image it owns as its first statement", stmt="_animate: self._img = img first")
     cl = m.get(CM, "ImageIterator.close")
